@@ -222,6 +222,131 @@ func guardFacts(fn *ssa.Function) []guardFact {
 	return out
 }
 
+var boolFactsMemo = map[*ssa.Function][2][]guardFact{}
+
+// boolFacts summarises a predicate helper (single bool result): the branch conditions that have one
+// known value on every return of `true` ([1]) and on every return of `false` ([0]). A return of a
+// condition value itself (`return v.IsBonded()`) contributes that condition with the matching truth.
+func boolFacts(fn *ssa.Function) (out [2][]guardFact) {
+	if f, ok := boolFactsMemo[fn]; ok {
+		return f
+	}
+	if guardFactsBusy[fn] || fn == nil || len(fn.Blocks) == 0 || len(fn.Blocks) > 40 {
+		return
+	}
+	res := fn.Signature.Results()
+	if res.Len() != 1 || res.At(0).Type().String() != "bool" {
+		return
+	}
+	guardFactsBusy[fn] = true
+	defer func() { guardFactsBusy[fn] = false }()
+	tm := NewTermer()
+	var rels []*Term
+	seen := map[string]bool{}
+	addRel := func(rel *Term) {
+		if k := rel.String(); !seen[k] && len(rels) < 10 {
+			seen[k] = true
+			rels = append(rels, rel)
+		}
+	}
+	for _, b := range fn.Blocks {
+		if len(b.Instrs) == 0 {
+			continue
+		}
+		if iff, ok := b.Instrs[len(b.Instrs)-1].(*ssa.If); ok {
+			rel, _ := Cond(tm.Of(iff.Cond))
+			addRel(rel)
+		}
+	}
+	var atoms []Atom
+	for i, rel := range rels {
+		key := rel.String()
+		atoms = append(atoms, Atom{Name: fmt.Sprintf("g%d", i), Cond: func(r *Term) (bool, bool) { return r.String() == key, true }})
+	}
+	var ps *PathStates
+	if len(atoms) > 0 {
+		ps = analyzePaths(fn, atoms, false)
+	}
+	type bucket struct {
+		n    int
+		vals []int8 // per rel: -1 unset, -2 conflicting/unknown
+	}
+	bk := [2]*bucket{{vals: make([]int8, len(rels))}, {vals: make([]int8, len(rels))}}
+	for _, b := range bk {
+		for i := range b.vals {
+			b.vals[i] = -1
+		}
+	}
+	var direct [2][]guardFact
+	undecided := false
+	for _, b := range fn.Blocks {
+		for _, in := range b.Instrs {
+			ret, ok := in.(*ssa.Return)
+			if !ok || len(ret.Results) != 1 {
+				continue
+			}
+			t := tm.Of(ret.Results[0])
+			which := -1
+			switch t.Op {
+			case "const:true":
+				which = 1
+			case "const:false":
+				which = 0
+			}
+			if which < 0 {
+				// the result is a condition value: result true <=> rel (with polarity)
+				rel, pol := Cond(t)
+				if rel.Op == "phi" {
+					undecided = true
+					continue
+				}
+				direct[1] = append(direct[1], guardFact{rel, pol})
+				direct[0] = append(direct[0], guardFact{rel, !pol})
+				if len(fn.Blocks) > 1 {
+					undecided = true // mixed forms: keep only what single-return predicates give
+				}
+				continue
+			}
+			bk[which].n++
+			if ps != nil {
+				for _, st := range ps.At(ret) {
+					for i := range rels {
+						v := int8(st[i])
+						cur := bk[which].vals[i]
+						switch {
+						case v == U:
+							bk[which].vals[i] = -2
+						case cur == -1:
+							bk[which].vals[i] = v
+						case cur != v:
+							bk[which].vals[i] = -2
+						}
+					}
+				}
+			}
+		}
+	}
+	if !undecided || len(fn.Blocks) == 1 {
+		for w := 0; w < 2; w++ {
+			out[w] = append(out[w], direct[w]...)
+		}
+	}
+	if !undecided {
+		for w := 0; w < 2; w++ {
+			if bk[w].n == 0 {
+				continue
+			}
+			for i, rel := range rels {
+				if v := bk[w].vals[i]; v == T || v == F {
+					out[w] = append(out[w], guardFact{rel, v == T})
+				}
+			}
+		}
+	}
+	boolFactsMemo[fn] = out
+	return
+}
+
 // substParams replaces the helper's parameters in t by the caller's argument terms.
 func substParams(t *Term, args []*Term) *Term {
 	if strings.HasPrefix(t.Op, "param:") {
@@ -290,6 +415,35 @@ func analyzePaths(fn *ssa.Function, atoms []Atom, helpers bool) *PathStates {
 				if m, atw := a.Cond(rel); m {
 					branch[b] = append(branch[b], bm{atom: i, pol: pol == atw})
 					ps.Matched[a.Name] = append(ps.Matched[a.Name], rel.String())
+				}
+			}
+			// `if helper(args)` with a predicate helper: the facts it guarantees per result, in the caller's terms
+			if helpers && curProg != nil && strings.HasPrefix(rel.Op, "call:") {
+				if hf := curProg.Func(strings.TrimPrefix(rel.Op, "call:")); hf != nil && hf != fn {
+					bf := boolFacts(hf)
+					for w := 0; w < 2; w++ {
+						// result true: the If's true edge when pol, else its false edge
+						succIdx := 0
+						if (w == 1) != pol {
+							succIdx = 1
+						}
+						for _, f := range bf[w] {
+							frel := substParams(f.rel, rel.Args)
+							for i, a := range atoms {
+								if a.Cond == nil {
+									continue
+								}
+								if m, atw := a.Cond(frel); m {
+									v := F
+									if f.truth == atw {
+										v = T
+									}
+									branch[b] = append(branch[b], bm{atom: i, oneSided: true, succIdx: succIdx, val: v})
+									ps.Matched[a.Name] = append(ps.Matched[a.Name], "via "+FuncName(hf)+": "+frel.String())
+								}
+							}
+						}
+					}
 				}
 			}
 			// `helper(args) == nil`: the facts the helper guarantees on success, in the caller's terms
